@@ -728,6 +728,23 @@ func checkTermination(vd *Verdict, v *prioView) {
 		return
 	}
 
+	if sc.Class == "stop" && !sc.plain() {
+		// a rough stop may end a pending GracefulStop early, but when GracefulStop returns
+		// the discipline has terminated, so every Handle call must have returned
+		if v.gracefulRet >= 0 {
+			for it, g := range v.gotSeq {
+				if r, ok := v.relSeq[it]; g < v.gracefulRet && (!ok || r > v.gracefulRet) {
+					vd.fail("handle-running-after-graceful-return", "GracefulStop() returned (seq %d) while Handle(%d) was still running", v.gracefulRet, it)
+					return
+				}
+			}
+
+			vd.probe("graceful-stop-ended-by-rough-stop")
+		}
+
+		return
+	}
+
 	if sc.Class != "normal" && sc.Class != "withhold" {
 		return
 	}
